@@ -10,9 +10,12 @@ HEADER = """From Mammoth Require Import Transforms DelemEq.
 Local Open Scope N_scope.
 (* (which entry point: true = paragraph, transform family index, document children, observed calls, observed result children,
     observed get_descendants of the first child, observed get_descendants_of_type Run) *)
-Definition chk (c : bool * N * list delem * list delem * list delem * list delem * list delem) : bool :=
-  let '(para, k, children, ocalls, ores, odesc, oruns) := c in
-  let p := if para then is_para else is_run in
+Definition is_text (e : delem) : bool := match e with DText _ => true | _ => false end.
+Definition is_tab (e : delem) : bool := match e with DTab => true | _ => false end.
+(* entry point: 0 = transforms.paragraph, 1 = transforms.run, 2 = element_of_type(Text, .), 3 = element_of_type(Tab, .) *)
+Definition chk (c : N * N * list delem * list delem * list delem * list delem * list delem) : bool :=
+  let '(entry, k, children, ocalls, ores, odesc, oruns) := c in
+  let p := match entry with 0 => is_para | 1 => is_run | 2 => is_text | _ => is_tab end in
   let d := mkDoc children [] [] in
   list_eqb delem_eqb (document_calls p (t_family k) d) ocalls
   && list_eqb delem_eqb (d_children (transform_document p (t_family k) d)) ores
@@ -21,7 +24,7 @@ Definition chk (c : bool * N * list delem * list delem * list delem * list delem
      | [] => true
      end.
 """
-CASE_TYPE = "bool * N * list delem * list delem * list delem * list delem * list delem"
+CASE_TYPE = "N * N * list delem * list delem * list delem * list delem * list delem"
 
 
 def family(k, log):
@@ -52,15 +55,16 @@ def run(ctx):
     for i in range(n):
         g = gen_docs.Gen(rng, notes=False, comments=False, images=(i % 3 == 0))
         doc, _ = g.document()
-        para = rng.random() < 0.5
-        k = rng.randrange(4)
+        ek = rng.choice([0, 0, 1, 1, 2, 3])      # entry point: paragraph, run, element_of_type(Text), element_of_type(Tab)
+        para = ek == 0
+        k = rng.randrange(4) if ek < 2 else rng.choice([0, 3])     # leaf types have no style / children to change: identity and record-only
         log = []
-        entry = transforms.paragraph if para else transforms.run
-        cls = D.Paragraph if para else D.Run
+        cls = [D.Paragraph, D.Run, D.Text, D.Tab][ek]
+        entry = [transforms.paragraph, transforms.run, lambda f: transforms.element_of_type(D.Text, f), lambda f: transforms.element_of_type(D.Tab, f)][ek]
         result = entry(family(k, log))(doc)
         ctx.count()
         dist["documents"] += 1
-        dist["entry_paragraph" if para else "entry_run"] += 1
+        dist[["entry_paragraph", "entry_run", "entry_text", "entry_tab"][ek]] = dist.get(["entry_paragraph", "entry_run", "entry_text", "entry_tab"][ek], 0) + 1
         dist["families"][k] += 1
         dist["calls"] += len(log)
         first = doc.children[0] if doc.children else None
@@ -69,7 +73,7 @@ def run(ctx):
         bad = None
         expected_calls = sum(count(c, cls) for c in doc.children)
         if len(log) != expected_calls:
-            bad = "the transform was called %d times for %d %s" % (len(log), expected_calls, "paragraphs" if para else "runs")
+            bad = "the transform was called %d times for %d %s" % (len(log), expected_calls, ["paragraphs", "runs", "text elements", "tabs"][ek])
         elif any(not isinstance(e, cls) for e in log):
             bad = "the transform was called on an element of another kind"
         elif k in (0, 3):
@@ -95,7 +99,7 @@ def run(ctx):
                 bad = "get_descendants does not return every descendant exactly once"
             elif [id(x) for x in runs] != [id(x) for x in desc if isinstance(x, D.Run)]:
                 bad = "get_descendants_of_type is not the filter of get_descendants"
-        meta = {"document": [T.delem_json(c) for c in doc.children], "entry": "paragraph" if para else "run", "family": k, "index": i}
+        meta = {"document": [T.delem_json(c) for c in doc.children], "entry": ["paragraph", "run", "text", "tab"][ek], "family": k, "index": i}
         if bad:
             ctx.violation("oracle", bad, dict(meta, api="mammoth.transforms"), True)
         elif log:
@@ -104,7 +108,7 @@ def run(ctx):
                 ctx.sample({"entry": meta["entry"], "family": k, "calls": len(log)})
         for e in list(doc.children) + list(result.children):
             T.attach_image_sources([e])
-        terms.append("(%s, %d, %s, %s, %s, %s, %s)" % (T.b(para), k, T.lst(T.delem, doc.children), T.lst(T.delem, log),
+        terms.append("(%d, %d, %s, %s, %s, %s, %s)" % (ek, k, T.lst(T.delem, doc.children), T.lst(T.delem, log),
                                                       T.lst(T.delem, result.children), T.lst(T.delem, desc), T.lst(T.delem, runs)))
         metas.append(meta)
     for i in ctx.coq_eval("c19", HEADER, terms, CASE_TYPE, "chk", shard=25)[:5]:
@@ -133,8 +137,9 @@ def replay(ctx, rep):
     children = [T.delem_from_json(j) for j in r["document"]]
     doc = D.document(children)
     log = []
-    entry = transforms.paragraph if r["entry"] == "paragraph" else transforms.run
-    cls = D.Paragraph if r["entry"] == "paragraph" else D.Run
+    ek = ["paragraph", "run", "text", "tab"].index(r["entry"])
+    cls = [D.Paragraph, D.Run, D.Text, D.Tab][ek]
+    entry = [transforms.paragraph, transforms.run, lambda f: transforms.element_of_type(D.Text, f), lambda f: transforms.element_of_type(D.Tab, f)][ek]
     result = entry(family(r["family"], log))(doc)
     exp = sum(count(c, cls) for c in children)
 
